@@ -54,7 +54,7 @@ def _vinst(tier):
     if tier == "quick":  # periodic timers x three subscriptions: thorough tier only (average stays: its state leak needs differing data)
         out = [i for i in out if i["op"] not in PERIODIC or i["op"] == "average"]
         # queued inner sources need two outer elements
-        out += [{"op": o, "N": 2} for o in ("merge_max", "concat_map") if {"op": o, "N": 2} not in out]
+        out += [{"op": o, "N": 2, "d": d} for o in ("merge_max", "concat_map") for d in (0, 1, 2, 5)]  # dispose instant split over instances
     return out
 
 
@@ -77,8 +77,9 @@ def h_varying(a, inst):
     o1, o2, o3 = sch.create_observer(), sch.create_observer(), sch.create_observer()
     h = [None]
     sch.schedule_absolute(200, lambda s, st: h.__setitem__(0, shared.subscribe(o1, scheduler=s)))
-    if a.d < 5:
-        sch.schedule_absolute(201 + a.d, lambda s, st: h[0].dispose())
+    d = inst["d"] if "d" in inst else a.d
+    if d < 5:
+        sch.schedule_absolute(201 + d, lambda s, st: h[0].dispose())
     sch.schedule_absolute(220, lambda s, st: shared.subscribe(o2, scheduler=s))
     sch.schedule_absolute(220, lambda s, st: fresh.subscribe(o3, scheduler=s))
     sch.advance_to(250)
